@@ -149,6 +149,22 @@ func runBuilderTie(o *Opts, rep *Report) {
 			idx = append(idx, map[string]interface{}{"target": t.String(), "prog": v.String(), "threshold": thr, "compile": msg, "prog_json": v})
 		}
 	}
+	// FromBinary without any digit: bits.FromBase refuses it ("needs at least 1 digit"); the model raises its panic flag
+	for _, t := range targets {
+		for _, p := range []*Prog{
+			{NbPub: 0, NbSec: 1, Ops: []Op{{Kind: "FromBinary"}}, Outs: []int{1}},
+			{NbPub: 1, NbSec: 1, Ops: []Op{{Kind: "Add", Args: []Arg{{V: 0}, {V: 1}}}, {Kind: "FromBinary"}}, Outs: []int{2}},
+		} {
+			if c, msg := builderCase(t, p, 300); c != "" {
+				if msg != "" {
+					npanic++
+				}
+				rep.Eval(fmt.Sprintf("builder|%s|300|%s", t, p), true)
+				cases = append(cases, c)
+				idx = append(idx, map[string]interface{}{"target": t.String(), "prog": p.String(), "threshold": 300, "compile": "FromBinary()", "prog_json": p})
+			}
+		}
+	}
 	rep.Count("builder:cases")
 	var sb strings.Builder
 	sb.WriteString("From Coq Require Import ZArith List Bool.\nFrom GnarkV Require Import CS.Solver Frontend.Spec Frontend.BuilderCases.\nImport ListNotations.\n")
